@@ -8,7 +8,7 @@ from cr.cube.cube import Cube
 
 from . import common as C
 from .cellworld import CellWorld
-from .c11 import D, S
+from .c11 import D, S, elements, display_order
 
 Z975 = 1.959964
 
@@ -74,8 +74,9 @@ def _scale(A, k):
 
 
 def slice_pop(eng, rows_date=False, cols_date=False, shape="new", n=2, ins=True):
-    rins = [S("r12", [1, 2], anchor="top"), D("rd", [1], [2])] if ins else []
-    cins = [D("cd", [2], [1])] if ins else []
+    # the difference is declared first but displayed last: display order differs from declaration order
+    rins = [D("rd", [1], [2]), S("r12", [1, 2], anchor="top")] if ins else []
+    cins = [D("cd", [2], [1], anchor="bottom"), S("c12", [1, 2], anchor=1)] if ins else []
     w = CellWorld(eng, [("catdate" if rows_date else "cat", "a", n, {"missing_at": (1,), "insertions": rins}),
                         ("catdate" if cols_date else "cat", "b", n, {"missing_at": (0,), "insertions": cins})])
     extra, f = filter_fields(eng, shape)
@@ -86,18 +87,25 @@ def slice_pop(eng, rows_date=False, cols_date=False, shape="new", n=2, ins=True)
     se = getattr(part, direction + "_std_err")
     nan = C.nan_like(eng)
     cnt = _scale(_scale(prop, P), f)
-    for i in part.diff_row_idxs:
-        cnt[int(i), :] = nan
-    for j in part.diff_column_idxs:
-        cnt[:, int(j)] = nan
+    # which displayed rows / columns are differences is derived from the insertion definitions, not from the library
+    rb, ri = elements(w, 0)
+    cb, ci = elements(w, 1)
+    drows = tuple(i for i, (sg, diff) in enumerate(display_order(w.vars[0], rb, ri)) if diff)
+    dcols = tuple(j for j, (sg, diff) in enumerate(display_order(w.vars[1], cb, ci)) if diff)
+    for i in drows:
+        cnt[i, :] = nan
+    for j in dcols:
+        cnt[:, j] = nan
     moe = _scale(_scale(_scale(se, P), f), Z975)
-    return [Obs("population_fraction", C.to_array([part.population_fraction]), C.to_array([f])),
+    return [Obs("diff_row_idxs", tuple(int(i) for i in part.diff_row_idxs), drows, kind="same"),
+            Obs("diff_column_idxs", tuple(int(i) for i in part.diff_column_idxs), dcols, kind="same"),
+            Obs("population_fraction", C.to_array([part.population_fraction]), C.to_array([f])),
             Obs("population_counts", part.population_counts, cnt),
             Obs("population_counts_moe", part.population_counts_moe, moe)]
 
 
 def strand_pop(eng, date=False, shape="new", n=3):
-    ins = [S("s12", [1, 2], anchor="top"), D("d", [3], [1])]
+    ins = [D("d", [3], [1]), S("s12", [1, 2], anchor="top")]
     w = CellWorld(eng, [("catdate" if date else "cat", "a", n, {"missing_at": (1,), "insertions": ins})])
     extra, f = filter_fields(eng, shape)
     P = eng.pyreal("P", lo=0)
@@ -112,10 +120,13 @@ def strand_pop(eng, date=False, shape="new", n=3):
     else:
         prop, se = part.table_proportions, part.table_proportion_stderrs
     cnt = _scale(_scale(prop, P), f)
-    for i in part.diff_row_idxs:
-        cnt[int(i)] = nan
+    rb, ri = elements(w, 0)
+    drows = tuple(i for i, (sg, diff) in enumerate(display_order(w.vars[0], rb, ri)) if diff)
+    for i in drows:
+        cnt[i] = nan
     moe = _scale(_scale(_scale(se, P), f), Z975)
-    return [Obs("population_fraction", C.to_array([part.population_fraction]), C.to_array([f])),
+    return [Obs("diff_row_idxs", tuple(int(i) for i in part.diff_row_idxs), drows, kind="same"),
+            Obs("population_fraction", C.to_array([part.population_fraction]), C.to_array([f])),
             Obs("population_counts", part.population_counts, cnt),
             Obs("population_counts_moe", part.population_counts_moe, moe)]
 
